@@ -202,9 +202,9 @@ func keyVals(r *Rng, style, typ string, n int, hash bool, c, e string) []AV {
 		case c == "%":
 			fam = []string{"x", "%s", "%v", "%!v(MISSING)", "%"}
 		case hash:
-			fam = []string{"a", "a" + c, "a" + e, "a" + c + "b", "a" + e + c}
+			fam = []string{"a", "a" + c, "a" + e, "a" + c + "b", "a" + e + c, " "}
 		default:
-			fam = []string{"x", c + "x", "b" + c + "x", e + c + "x", c}
+			fam = []string{"x", c + "x", "b" + c + "x", e + c + "x", c, " "}
 		}
 		seen := map[string]bool{}
 		for _, s := range fam {
@@ -1059,7 +1059,7 @@ func (g *Gen) try(m *Model, eng *Engine) *Cmd {
 			cur = cmd.Key
 		}
 		cmd.Upd = g.update(name, def, cur)
-		if len(g.natUpdates) > 0 && r.Chance(0.4) {
+		if len(g.natUpdates) > 0 && (r.Chance(0.4) || mc.Native && r.Chance(0.5)) {
 			// reuse the text of a registered Go updater
 			nu := pick(r, g.natUpdates)
 			if nu.table == name {
